@@ -32,14 +32,14 @@ Theorem C07_message_of_arithmetic_arguments : forall ft cfg local tfmt cs fuel f
 Proof. exact message_of_arith_args. Qed.
 Print Assumptions C07_message_of_arithmetic_arguments.
 (** containers, tuples, structs, optionals and variants in the documented notation: the text ToStringVisitor produces for the callbacks of a
-    value is [text_of]: strings verbatim, [a, b], (a, b), Name{ f: v, g: w }, {null}, a variant as its active alternative - from any state of
+    value is [text_of]: strings verbatim, [a, b], (a, b), Name{ f: v, g: w }, {null}, the enumerator's name or 0xHEX, a variant as its active alternative - from any state of
     the visitor (inside a sequence it is preceded by ", "), leaving the state as a single value does *)
 Theorem C07_value_text_is_documented_notation : forall ft v t inv, wt t v = true -> simple inv t = true -> t <> TUnit ->
   prints ft (callbacks_b true t v) (text_of ft t v).
 Proof. exact tostring_prints. Qed.
 Print Assumptions C07_value_text_is_documented_notation.
 
-(** the whole message, for arguments of the [simple] universe (arithmetic, strings and other sequences of at most 32 elements, tuples, optionals,
+(** the whole message, for arguments of the [simple] universe (arithmetic, adapted enums over integral types, strings and other sequences of at most 32 elements, tuples, optionals,
     variants, non-empty structs whose names the printStruct hook does not take over, nesting up to 2048): the format with each {} replaced in order
     by the documented notation of the logged value. Links C04 (bytes), C06 (visit) and the state machine. *)
 Theorem C07_message_of_simple_arguments : forall ft cfg local tfmt cs fuel fmt (args : list targ),
@@ -47,9 +47,14 @@ Theorem C07_message_of_simple_arguments : forall ft cfg local tfmt cs fuel fmt (
   message_loop ft cfg fuel local tfmt cs fmt (targs_tags args) (targs_bytes args) ts_init = (subst fmt (targs_texts ft args), true).
 Proof. exact message_of_simple_args. Qed.
 Print Assumptions C07_message_of_simple_arguments.
-(** PARTIAL: adapted enums, empty structs, sequences of more than 32 elements (repeat collapsing), the special struct renderings (time points,
+(** PARTIAL: empty structs, enums over bool, sequences of more than 32 elements (repeat collapsing), the special struct renderings (time points,
     durations, addresses, paths, error codes) and recursive hand-written tags are outside these two theorems; they are checked against an
     independent rendering on the implementation and the model (tools/p_C07.py). *)
+
+Example C07_enum_nonvacuous :
+  text_of float_text (TEnum (str "Color") AI8 [(0%N, str "Red"); (255%N, str "Neg")]) (VRaw 255%N) = str "Neg" /\
+  text_of float_text (TEnum (str "Color") AI8 [(0%N, str "Red"); (255%N, str "Neg")]) (VRaw 16%N) = str "0x10".
+Proof. vm_compute. split; reflexivity. Qed.
 
 Example C07_composite_nonvacuous :
   text_of float_text (TStruct (str "ns::Pt<int>") [(str "x", TArith AI32); (str "tags", Types.TSeq (mkSK true None) (Types.TSeq (mkSK true None) (TArith AChar))); (str "o", TOpt (TArith AU8))])
